@@ -117,8 +117,10 @@ func init() {
 		for _, ts := range []int{128, 200} {
 			plans = append(plans, kvPlan{kvmc.Config{TableSize: ts, Keys: 3, Sizes: []int{10, 30}, Kinds: kinds, IdleTimeout: int64(15 * 60 * 1e9), MaxTables: 12}, depth})
 		}
-		c.Cov["rule"] = "storage level: in every state of the E1 BFS a full cursor scan is run for COUNT in {1,2,10} x MATCH in {none,^a,^zz}; non-trivial = distinct states whose store spans >= 2 tables"
-		runKV(c, plans, kvmc.ScanOracle, multiTable)
+		c.Cov["rule"] = "storage level: in every state of the E1 BFS a full cursor scan is run for COUNT in {1,2,10} x MATCH in {none,^a,^zz}, and a COUNT=1 scan with every single operation of the alphabet applied between two cursor calls at every position (keys present before and after must be yielded, never-present keys must not, the scan terminates); non-trivial = distinct states whose store spans >= 2 tables"
+		runKV(c, plans, func(w *kvmc.World, path []kvmc.Op) []kvmc.Fail {
+			return append(kvmc.ScanOracle(w, path), kvmc.ScanUnderChurnOracle(w, path)...)
+		}, multiTable)
 		storageTraces := c.Cov["traces_validated_against_impl"]
 		// cluster level: client iterator and raw DM.SCAN on stable clusters and on a partition
 		// that has two primary owners
